@@ -52,7 +52,8 @@ func DialClusterContext(ctx context.Context, addrs []string, options ...Option) 
 	}
 
 	if opts.retryTimeout == nil {
-		*opts.retryTimeout = 5 * time.Second
+		defaultRetryTimeout := 5 * time.Second
+		opts.retryTimeout = &defaultRetryTimeout
 	}
 
 	dialer := opts.dialer
@@ -81,7 +82,7 @@ func DialClusterContext(ctx context.Context, addrs []string, options ...Option) 
 			conn, err := tlsDialer.DialContext(ctx, "tcp", servers[0].url)
 			if err == nil {
 				// reset lastError since we had a success
-				servers[0].lastError = time.Date(0, 0, 0, 0, 0, 0, 0, nil)
+				servers[0].lastError = time.Time{}
 				return conn, nil
 			}
 			servers[0].lastError = time.Now()
